@@ -1,10 +1,11 @@
 /-
   C11 — Cancellation yields nothing or a complete result, and always terminates.
   Property theorems only.  Models: LibfiveModel/Render.lean (control flow of Mesh::render),
-  LibfiveModel/Pool.lean (worker pool, branch counter).  Lemmas: LibfiveProofs/{Render,Pool}.lean.
+  LibfiveModel/Pool.lean (worker pool, branch counter).  Lemmas: LibfiveProofs/{Render,Pool,PoolProgress}.lean.
 -/
 import LibfiveProofs.Render
 import LibfiveProofs.Pool
+import LibfiveProofs.PoolProgress
 
 namespace Libfive.C11
 open Libfive.Render Libfive.Pool
@@ -137,14 +138,12 @@ theorem no_lost_task (n cap L : Nat) (tr : List Ev) (s : S) (h : run (S.init n c
     rw [he, List.append_nil] at this
     exact this.symm
 
-/- FULL STATEMENT of worker_progress (NOT proved in full):
-     in every reachable non-final state some worker has an enabled non-spinning step, and every
-     non-spinning step decreases the lexicographic measure (unfinished cells, queued tasks), hence
-     without cancel the pool reaches `root collected`.
-   What is proved (`worker_progress_partial`): the cancel/done half in full, and deadlock-freedom of
-   the loop head, the task pick and the walk up the tree; the global measure and the enabledness
-   of the `eval`/`split` states (which need the cell-ownership invariant) are left to the trace
-   replay and the termination oracle. -/
+/- worker_progress: in every reachable non-final state some worker has an enabled non-spinning step, and
+   every non-spinning step decreases a measure, hence without cancel the pool reaches `root collected`.
+   This is now proved in full below (`cell_ownership`, `worker_measure_decreases`, `worker_steps_bounded`,
+   `worker_deadlock_free`, `worker_progress`, `worker_can_finish`; lemmas in LibfiveProofs/PoolProgress.lean).
+   `worker_progress_partial` (state-independent enabledness facts, the cancel/done half) is kept as it was
+   and is reused by `worker_progress`. -/
 
 /-- **worker_progress_partial.**  In ANY state (reachable or not):
     * once `cancel` (or `done`) is set, a worker at its loop head cannot start another iteration —
@@ -184,6 +183,168 @@ theorem collect_reports_zero (s s' : S) (w : Nat) (l : Bool) (h : step s (.colle
     · simp at h
   · simp at h
 
+/-! ## (c) termination of the worker pool
+
+  The model has one `act` per natural number; a trace is a run of `W` workers when all its worker
+  events carry an index below `W` (`workersBelow W tr`, decidable).  The shape of the octree is not
+  part of the state: every `evalDone` event chooses it (ambiguous cells only above level 0, children
+  one level down), so all statements below hold for every shape of depth at most `L`. -/
+
+/-- **cell_ownership.**  In every state reachable from the initial state by a run of `W` workers there
+    is an assignment `own` of a *place* to every cell (`free` = not created, `queued`, `eval w`,
+    `split w`, `asc w` = held by worker `w` in that phase, `waiting` on its children, `finished` = its
+    `pending--` on the parent / the exit at the root has executed) that the state agrees with — a
+    function, so every cell is in exactly one place:
+    * created ⇔ not `free`; in a queue (lock-free stack or a local stack) ⇔ `queued`, and the queues
+      hold no cell twice;
+    * worker `w` evaluates / splits / walks up from `c` ⇔ `own c` says so; hence no two workers ever
+      hold the same cell and a held cell is not queued;
+    * a `waiting` branch has pushed all `n` children and its counter is exactly the number of its
+      unfinished children minus one (so the `pending--` that observes 0 is the last child's);
+    * the parent of an unfinished cell is a branch that is still splitting or waiting (it was not
+      collected early).
+    `Own` (LibfiveProofs/PoolProgress.lean) is the full inductive invariant. -/
+theorem cell_ownership (n cap L W : Nat) (tr : List Ev) (hw : workersBelow W tr) (s : S)
+    (h : run (S.init n cap L) tr = some s) :
+    ∃ own : Nat → Place, Own W L s own ∧
+      (∀ c, c ∈ s.created ↔ own c ≠ .free) ∧
+      (∀ c, c ∈ s.queued ↔ own c = .queued) ∧ s.queued.Nodup ∧
+      (∀ w c, s.act w = .eval c ↔ own c = .eval w) ∧
+      (∀ w c, s.act w = .split c ↔ own c = .split w) ∧
+      (∀ w c, s.act w = .ascend c ↔ own c = .asc w) ∧
+      (∀ w w' c, (s.act w = .eval c ∨ s.act w = .split c ∨ s.act w = .ascend c) →
+        (s.act w' = .eval c ∨ s.act w' = .split c ∨ s.act w' = .ascend c) → w = w') ∧
+      (∀ p, own p = .waiting →
+        s.kids p = s.n ∧ s.pending p + 1 = unfin s.created s.parent own p) ∧
+      (∀ c ∈ s.created, ∀ p, s.parent c = some p → own c ≠ .finished →
+        own p = .waiting ∨ ∃ w, own p = .split w) := by
+  obtain ⟨own, hi⟩ : ∃ own, Own W L s own := ⟨_, own_run tr _ s own0 (own_init W n cap L) hw h⟩
+  refine ⟨own, hi, ?_, ?_, ?_, fun w c => (hi.f_eval w c).symm, fun w c => (hi.f_split w c).symm,
+    fun w c => (hi.f_asc w c).symm, ?_, ?_, ?_⟩
+  · intro c
+    have := hi.f_free c
+    constructor
+    · intro hc hf; exact (this.1 hf) hc
+    · intro hne; exact hi.mem_created hne
+  · intro c
+    refine ⟨hi.queued_place, fun hq => ?_⟩
+    obtain ⟨hc, hp⟩ := (hi.f_queued c).1 hq
+    have := hi.q.perm.mem_iff.1 (hi.cr_eq ▸ hc)
+    rcases List.mem_append.1 this with h | h
+    · exact absurd h hp
+    · exact h
+  · have hnd : (s.popped ++ s.queued).Nodup := hi.q.perm.nodup_iff.1 hi.q.nodup
+    exact (List.nodup_append.1 hnd).2.1
+  · intro w w' c h1 h2
+    have e1 := hi.f_eval w c; have e2 := hi.f_split w c; have e3 := hi.f_asc w c
+    have e4 := hi.f_eval w' c; have e5 := hi.f_split w' c; have e6 := hi.f_asc w' c
+    grind
+  · intro p hp
+    have hk := hi.k_wait p hp
+    have := hi.pend p (by simp [hp])
+    exact ⟨hk.1, by omega⟩
+  · intro c hc p hp hf
+    have := hi.child_par c hc p hp hf
+    cases hop : own p <;> simp [hop] at this ⊢
+
+/-- **worker_measure_decreases.**  `poolMeasure W L` (queued cells weighted by `cellPot`, the work a
+    cell of that level can still cause, plus what every worker below `W` still has to do in its
+    current phase, including its exit) is a natural number that, in every reachable state, EVERY
+    accepted non-spinning step (`pop`, `evalDone`, `push`, `collect`, `exitLoop`, `exitRoot`) strictly
+    decreases and no spinning step (`loop`, `noTask`, `cancel`) increases. -/
+theorem worker_measure_decreases (n cap L W : Nat) (tr : List Ev) (hw : workersBelow W tr) (s : S)
+    (h : run (S.init n cap L) tr = some s) (e : Ev) (he : e.below W = true) (s' : S)
+    (hs : step s e = some s') :
+    (e.isSpin = true → poolMeasure W L s' ≤ poolMeasure W L s) ∧
+    (e.isSpin = false → poolMeasure W L s' < poolMeasure W L s) := by
+  have hi := own_run tr _ s own0 (own_init W n cap L) hw h
+  have := measure_step hi e s' hs (Ev.below_spec he)
+  constructor
+  · intro hsp; simpa [hsp] using this
+  · intro hsp; simpa [hsp] using this
+
+/-- **worker_steps_bounded.**  Every accepted trace of `W` workers from the initial state (root of
+    level `L`, `n = 2^N` children per branch), whatever the interleaving, the shape of the octree and
+    the number of spinning steps, contains
+    * at most `cellPot n L L + W` non-spinning steps (the initial value of the measure; what is
+      left of it in the state reached is subtracted),
+    * hence at most `(L + 4) · (1 + n + … + n^L) + W`  — a bound that depends only on `n`, `L`, `W`,
+    * and at most `4 · (cells actually created) + W − 1` — one push, pop, evaluation and `pending--`
+      (or root exit) per cell of the octree that was really built, one exit per worker. -/
+theorem worker_steps_bounded (n cap L W : Nat) (tr : List Ev) (hw : workersBelow W tr) (s : S)
+    (h : run (S.init n cap L) tr = some s) :
+    nonSpin tr + poolMeasure W L s ≤ cellPot n L L + W ∧
+    nonSpin tr ≤ (L + 4) * fullCells n L + W ∧
+    nonSpin tr + 1 ≤ 4 * s.created.length + W := by
+  have h1 := measure_run tr _ s own0 (own_init W n cap L) hw h
+  rw [poolMeasure_init] at h1
+  have h2 := cellPot_le n L L
+  have h3 := credit_run tr _ s own0 (own_init W n cap L) hw h
+  have h4 := credit_le W s (grun (S.init n cap L) own0 tr)
+  have h5 : 1 ≤ credit W (S.init n cap L) own0 := by
+    simp [credit, S.init, own0, Place.stage]
+  exact ⟨h1, by omega, by omega⟩
+
+/-- **worker_deadlock_free.**  In every reachable state in which the render is neither finished
+    (`done` unset) nor cancelled, some worker below `W` can take a non-spinning step, at most after
+    its own loop-head check (`canProgress`): a worker that holds a cell can always continue with it,
+    and if no worker holds a cell some task is queued where an idle worker can pop it. -/
+theorem worker_deadlock_free (n cap L W : Nat) (hW : 0 < W) (tr : List Ev) (hw : workersBelow W tr)
+    (s : S) (h : run (S.init n cap L) tr = some s) (hd : s.done = false) (hc : s.cancel = false) :
+    ∃ w, w < W ∧ canProgress s w :=
+  progress_exists (own_run tr _ s own0 (own_init W n cap L) hw h) hW hd hc
+
+/-- **worker_progress.**  For every state `s` reachable by a run `tr` of `W ≥ 1` workers:
+    1. `tr` has at most `(L + 4) · fullCells n L + W` non-spinning steps — no execution makes
+       progress forever;
+    2. while `done` and `cancel` are unset some worker below `W` can progress (deadlock freedom);
+    3. once `done` or `cancel` is set no worker starts another iteration (`loop` is rejected) and every
+       worker that has not left can progress — towards its exit: it leaves at its next loop-head check;
+    4. the states in which the non-spinning steps are exhausted (no worker below `W` can progress)
+       are exactly those in which every worker has left its loop, and then `done` is set;
+    5. if `done` is set and `cancel` is not, the render is complete: nothing is queued, every task
+       pushed was popped, every cell that pushed children was collected — in particular the root.
+    So without cancellation every execution that runs until no non-spinning step is left (every
+    fair maximal execution) ends after a bounded number of such steps with the root collected,
+    `done = true` and all workers out of their loops. -/
+theorem worker_progress (n cap L W : Nat) (hW : 0 < W) (tr : List Ev) (hw : workersBelow W tr)
+    (s : S) (h : run (S.init n cap L) tr = some s) :
+    nonSpin tr ≤ (L + 4) * fullCells n L + W ∧
+    (s.done = false → s.cancel = false → ∃ w, w < W ∧ canProgress s w) ∧
+    (s.done = true ∨ s.cancel = true →
+      ∀ w, step s (.loop w) = none ∧ (s.act w ≠ .exited → canProgress s w)) ∧
+    ((∀ w, w < W → ¬ canProgress s w) ↔ (∀ w, w < W → s.act w = .exited)) ∧
+    ((∀ w, w < W → s.act w = .exited) → s.done = true) ∧
+    (s.done = true → s.cancel = false →
+      s.queued = [] ∧ s.popped.Perm s.pushed ∧ (∀ c ∈ s.created, s.kids c = 0 ∨ c ∈ s.collected) ∧
+      (s.kids 0 = 0 ∨ 0 ∈ s.collected)) := by
+  have hi := own_run tr _ s own0 (own_init W n cap L) hw h
+  refine ⟨(worker_steps_bounded n cap L W tr hw s h).2.1, progress_exists hi hW, ?_, ?_, ?_, ?_⟩
+  · intro hf w
+    refine ⟨?_, flagged_progress hi w hf⟩
+    rcases hf with hf | hf
+    · exact loop_rejected_of_done s w hf
+    · exact loop_rejected_of_cancel s w hf
+  · exact ⟨fun hst => (stuck_final hi hW hst).1, fun hex w hw' => exited_stuck s w (hex w hw')⟩
+  · intro hex
+    exact hi.exited_done 0 (hex 0 hW)
+  · intro hd hc
+    obtain ⟨hfin, hq, hp, h0⟩ := complete_of_done hi hd hc
+    refine ⟨hq, hp, ?_, h0⟩
+    intro c hcc
+    exact hi.coll c (by simp [hfin c hcc])
+
+/-- **worker_can_finish.**  From every reachable uncancelled state the workers below `W` alone can
+    finish the render: some continuation of the run reaches `done = true` without cancellation
+    (so the hypotheses of `worker_progress` are met by runs that do terminate). -/
+theorem worker_can_finish (n cap L W : Nat) (hW : 0 < W) (tr : List Ev) (hw : workersBelow W tr)
+    (s : S) (h : run (S.init n cap L) tr = some s) (hc : s.cancel = false) :
+    ∃ tr' s', workersBelow W tr' ∧ run (S.init n cap L) (tr ++ tr') = some s' ∧
+      s'.cancel = false ∧ s'.done = true := by
+  have hi := own_run tr _ s own0 (own_init W n cap L) hw h
+  obtain ⟨tr', s', h1, h2, h3, h4⟩ := can_finish hW _ s _ hi hc (Nat.le_refl _)
+  exact ⟨tr', s', h1, by rw [run_append _ _ _ _ h]; exact h2, h3, h4⟩
+
 -- hypotheses are satisfiable: two children arriving in the order 1, 0
 example : brun (BState.init 2) [.install 1, .install 0, .dec 1, .dec 0] =
     some ⟨2 ^ 32 - 1, [0, 1], [0, 1], [0]⟩ := by decide
@@ -193,5 +354,29 @@ example : render .hybrid ⟨2, 0, 3⟩ (raisedAt (some 9)) = some true := by dec
 -- a pool run: one worker pops the root of a one-level 1-ary tree, splits it, evaluates the child, collects
 example : (run (S.init 1 1 1) [.loop 0, .pop 0 0, .evalDone 0 .amb, .push 0 1 false, .loop 0, .pop 0 1,
     .evalDone 0 .leaf, .collect 0 true, .exitRoot 0]).isSome = true := by decide
+
+-- the termination theorems on concrete runs.  One worker, unary tree of depth 1, run to the end:
+def demoTrace : List Ev := [.loop 0, .pop 0 0, .evalDone 0 .amb, .push 0 1 false, .loop 0, .pop 0 1,
+    .evalDone 0 .leaf, .collect 0 true, .exitRoot 0]
+example : workersBelow 1 demoTrace := by decide
+example : (run (S.init 1 1 1) demoTrace).isSome = true := by decide
+example : nonSpin demoTrace = 7 ∧ cellPot 1 1 1 + 1 = 8 ∧ (1 + 4) * fullCells 1 1 + 1 = 11 := by decide
+-- the final state: done, not cancelled, the worker has left (so no worker below 1 can progress),
+-- two cells created (bound 4·2 + 1 − 1 = 8 ≥ 7), the root collected
+example : (run (S.init 1 1 1) demoTrace).map (fun s => (s.done, s.cancel, s.act 0, s.created.length, s.collected)) =
+    some (true, false, .exited, 2, [0]) := by decide
+-- a non-final state (root split, child queued, worker back at the loop head): done and cancel unset
+example : (run (S.init 1 1 1) (demoTrace.take 4)).map (fun s => (s.done, s.cancel, s.act 0, s.bag)) =
+    some (false, false, .idle, [1]) := by decide
+-- two workers, binary tree, the second child goes to the local stack of worker 0 (capacity 1)
+example : workersBelow 2 [.loop 0, .loop 1, .pop 0 0, .evalDone 0 .amb, .push 0 1 false, .push 0 2 true,
+    .pop 1 1, .evalDone 1 .leaf, .collect 1 false] := by decide
+example : (run (S.init 2 1 1) [.loop 0, .loop 1, .pop 0 0, .evalDone 0 .amb, .push 0 1 false, .push 0 2 true,
+    .pop 1 1, .evalDone 1 .leaf, .collect 1 false, .loop 0, .pop 0 2, .evalDone 0 .leaf, .collect 0 true,
+    .exitRoot 0, .exitLoop 1]).map (fun s => (s.done, s.act 0, s.act 1, s.collected)) =
+    some (true, .exited, .exited, [0]) := by decide
+-- a cancelled run: the flag is raised while the root is being evaluated; the worker leaves at its next check
+example : (run (S.init 2 1 1) [.loop 0, .pop 0 0, .cancel, .evalDone 0 .term, .exitRoot 0]).map
+    (fun s => (s.done, s.cancel, s.act 0)) = some (true, true, .exited) := by decide
 
 end Libfive.C11
